@@ -10,6 +10,7 @@ CHECK = {
         "events at the same instant as a base-timer expiry may be processed in either order; the oracle accepts both",
         "LocalBuildExecutor is driven with fakes: empty build directory, CAS holding only the command, a runner that answers a finished context like a gRPC client stub (status.FromContextError)",
         "buffers handed out by SuspendingBlobAccess.Get are finished exactly once (read to the end / closed / discarded), as the Buffer contract demands",
+        "the context handed to LocalBuildExecutor.Execute() may be cancelled by the worker at any instant (generated: before/at the creation of the run context, around the earliest instant the timeout may fire, around budget / hard bound / finish); the fake runner answers a cancelled context like a gRPC client stub, so a run that ended by that cancellation is reported with code CANCELLED (local_build_executor.go documents no other mapping; only a logged I/O error takes precedence)",
     ],
     "tests": [
         T("susclock", "TestC11SuspendableClockTimeline",
@@ -22,7 +23,7 @@ CHECK = {
           {"checks": 12000, "shards": 2, "timeout": 300},
           {"checks": 80000, "shards": 16, "timeout": 1200}),
         T("susclock", "TestC11ExecutorTimeout",
-          {"checks": 6000, "shards": 2, "timeout": 300},
+          {"checks": 8000, "shards": 2, "timeout": 300},
           {"checks": 60000, "shards": 16, "timeout": 1200}),
     ],
 }
